@@ -22,7 +22,8 @@ for d in sorted(os.listdir(src)):
             sh(['git','apply','-R',os.path.join(p,'demo.diff')])
             return a.returncode==0 and 'FAILED' not in r.stdout and 'ok.' in r.stdout
         if os.path.exists(os.path.join(p,'demo.s')):
-            r = sh(['cargo','run','--offline','-q','--',os.path.join(p,'demo.s')], inp=(open(os.path.join(p,'stdin.txt')).read() if os.path.exists(os.path.join(p,'stdin.txt')) else 'Q\n'))
+            extra = open(os.path.join(p,'args.txt')).read().split() if os.path.exists(os.path.join(p,'args.txt')) else []
+            r = sh(['cargo','run','--offline','-q','--'] + extra + [os.path.join(p,'demo.s')], inp=(open(os.path.join(p,'stdin.txt')).read() if os.path.exists(os.path.join(p,'stdin.txt')) else 'Q\n'))
             return r.returncode==0 and r.stdout == open(os.path.join(p,'expected_stdout.txt')).read()
         return None
     clean_ok = demo()
